@@ -9,6 +9,7 @@ stored / delivered bytes, whether that chunking satisfies the theorems' `ValidCh
 trace; these are diffed against the implementation.  The oracle states the property on the implementation only.
 """
 import asyncio
+import os
 import pathlib
 import random
 
@@ -1000,8 +1001,114 @@ def _close_faults(ctx):
     return res
 
 
+async def _half_close_case(loop, size, bs, backend, listing):
+    """a client that is not aioftp's: it has nothing to send on the data connection of a RETR (or LIST), so it shuts its
+    sending side down at once (shutdown(SHUT_WR) - legal, common) and then reads SLOWLY: the server's transport still
+    holds the tail of the file when the worker has written its last block and closes.  Every byte must arrive."""
+    import world as W2
+
+    content = bytes((i * 31 + 7) % 251 for i in range(size))
+    wd = W2.World(loop, [W2.UserSpec("bob", None)], backend=backend, server_kwargs={"block_size": bs})
+    await wd.start()
+    out = {}
+    try:
+        tree = [(("big.bin",), content), (("d",), None)] + [(("d", "entry-%03d" % i), b"") for i in range(40)]
+        wd.set_tree(tree)
+        c = await wd.raw_client()
+        await W2.run_line(wd, c, b"USER bob")
+        await W2.run_line(wd, c, b"EPSV")
+        await W2.data_connect(wd, c)
+        dr, dw = c.data
+        dw.write_eof()
+        await loop.settle()
+        sp = dw.transport.peer  # the server's end of the data connection
+        sp.HIGH = 1024
+        sp.hold = True  # the client reads nothing for now
+        n0 = len(c.replies)
+        c.send_raw(b"LIST d\r\n" if listing else b"RETR big.bin\r\n")
+        await loop.settle()
+        # the client reads in small sips, pausing in between, until the server says it is done and beyond
+        got = b""
+        for _ in range(4000):
+            sp.hold = False
+            sp._schedule_pump()
+            try:
+                b = await asyncio.wait_for(dr.read(700), 1.0)
+            except asyncio.TimeoutError:
+                b = None
+            except ConnectionError as e:
+                out["data_error"] = type(e).__name__
+                break
+            sp.hold = True
+            if b == b"":
+                break
+            if b:
+                got += b
+            await asyncio.sleep(0.01)
+        await loop.settle()
+        out["codes"] = [int(x) for x, _ in c.replies[n0:]]
+        out["got"] = len(got)
+        if listing:
+            names = sorted(l.split(" ")[-1] for l in got.decode("utf-8").splitlines())
+            out["exact"] = names == sorted("entry-%03d" % i for i in range(40))
+        else:
+            out["exact"] = got == content
+            out["first_difference"] = next((i for i in range(min(len(got), len(content))) if got[i] != content[i]), min(len(got), len(content)))
+        c.data = None
+        dw.close()
+        out["follow"], _, _, _ = await W2.run_line(wd, c, b"PWD")
+        c.close()
+        await loop.settle()
+    finally:
+        try:
+            await wd.stop()
+        except Exception:
+            wd.finish()
+    return out
+
+
+def _half_close_job(args):
+    try:
+        return simnet.run(_half_close_case, *args, wall_limit=120)
+    except BaseException as e:  # noqa
+        return "HARNESS-ERROR %s: %s" % (type(e).__name__, e)
+
+
+def _half_close_judge(inp, o):
+    if isinstance(o, str):
+        return {"input": inp, "what": o, "signature": "C01:half-closed-download-hang"}
+    if not o.get("exact") or 226 not in o["codes"]:
+        return {"input": inp, "what": "a client that shut down its sending side of the data connection and read slowly got %d of %d bytes (exact: %r, data error: %r), the server answered %r" % (
+            o["got"], inp["size"], o.get("exact"), o.get("data_error"), o["codes"]), "signature": "C01:half-closed-download-truncated"}
+    return None
+
+
+def _half_close(ctx):
+    res = Result()
+    jobs = []
+    for backend in ("memory", "pathio") + (("async",) if ctx.thorough() else ()):
+        for bs in (512, 8192):
+            for size in (0, 1, bs - 1, bs, bs * 3 + 1, 40000) + ((200000,) if ctx.thorough() else ()):
+                jobs.append((size, bs, backend, False))
+            jobs.append((0, bs, backend, True))
+    import multiprocessing
+
+    with multiprocessing.get_context("fork").Pool(min(16, os.cpu_count() or 4)) as pool:
+        outs = pool.map(_half_close_job, jobs, chunksize=1)
+    for (size, bs, backend, listing), o in zip(jobs, outs):
+        res.cases += 1
+        res.count("half_closed_download")
+        res.distinct.add(("half-close", size, bs, backend, listing))
+        inp = {"kind": "half-close", "size": size, "block_size": bs, "backend": backend, "listing": listing}
+        f = _half_close_judge(inp, o)
+        if f:
+            res.oracle_failures.append(f)
+    return res
+
+
 def correspondence(ctx):
     res = _run(ctx, gen_cases(ctx))
+    res.merge(_half_close(ctx))
     res.merge(_late(ctx))
     res.merge(_close_faults(ctx))
     if res.oracle_failures:
@@ -1087,6 +1194,7 @@ def shrink(fail, budget=160):
 
 def search(ctx, prior):
     res = Result()
+    res.merge(_half_close(ctx))
     res.merge(_late(ctx))
     res.merge(_close_faults(ctx))
     cases = []
@@ -1109,6 +1217,10 @@ def search(ctx, prior):
 
 def replay(ctx, doc):
     inp = doc["failure"]["input"]
+    if inp.get("kind") == "half-close":
+        o = _half_close_job((inp["size"], inp["block_size"], inp["backend"], inp["listing"]))
+        print(o)
+        return _half_close_judge(inp, o) is not None
     if inp.get("kind") == "close-fault":
         from props import c13
 
